@@ -273,3 +273,49 @@ def onchain_key_hashes():
                             out.append((kt, u['key'], u['key_hash'], vt, u.get('value')))
     _CACHE['hashes'] = out
     return out
+
+
+def key_pools(limit=14):
+    """{model key type: [model values]} of the keys real maps, sets and big maps use (recorded storages, arguments, diffs)."""
+    if 'pools' in _CACHE:
+        return _CACHE['pools']
+    pools = {}
+
+    def walk(t, v):
+        p = t[0]
+        if p in ('set',):
+            for k in v:
+                pools.setdefault(t[1], []).append(k)
+        elif p in ('map', 'big_map'):
+            for k, x in v:
+                pools.setdefault(t[1], []).append(k)
+                walk(t[2], x)
+        elif p == 'pair':
+            walk(t[1], v[0])
+            walk(t[2], v[1])
+        elif p == 'option' and v is not None:
+            walk(t[1], v[1])
+        elif p == 'or':
+            walk(t[1] if v[0] == 'L' else t[2], v[1])
+        elif p == 'list':
+            for x in v:
+                walk(t[1], x)
+
+    for label, texpr, t, v, src in typed_values():
+        walk(t, v)
+    for kt, key, h, vt, val in onchain_key_hashes():
+        try:
+            t = T.from_micheline(strip(kt))
+            pools.setdefault(t, []).append(P.parse(key, t))
+        except Exception:
+            pass
+    out = {}
+    for t, vals in pools.items():
+        uniq = []
+        for x in vals:
+            if x not in uniq:
+                uniq.append(x)
+        if len(uniq) >= 2 and T.comparable(t):
+            out[t] = uniq[:limit]
+    _CACHE['pools'] = out
+    return out
